@@ -51,23 +51,32 @@ def variants(algo, tier):
         out.append(("dict-0", {"init": "svd", "non_negative": {0: True}}))
         out.append(("dict-0-last", {"init": "random", "non_negative": "DICT:0,LAST"}))
         out.append(("all-inner1", {"init": "svd", "non_negative": True, "n_iter_max_inner": 1}))
+    elif algo == "parafac2-linesearch-seam":
+        # the accepted extrapolated step of PARAFAC2's line search, driven directly (narrowest seam): every subset of declared modes
+        for nn in ([0], [2], [0, 2], [0, 1], [1, 2], [0, 1, 2], [2, 0]):
+            out.append((f"nn-{nn}", {"nn_modes": nn}))
     elif algo == "parafac2":
         for nn in ([0], [2], [0, 2], "all"):
             for init in ("random", "svd"):
                 out.append((f"nn-{nn}-{init}", {"init": init, "nn_modes": nn, "linesearch": False}))
         out.append(("nn-[0, 2]-linesearch", {"init": "random", "nn_modes": [0, 2], "linesearch": True}))
         out.append(("nn-[2]-linesearch", {"init": "random", "nn_modes": [2], "linesearch": True}))
+        out.append(("nn-[0]-linesearch", {"init": "random", "nn_modes": [0], "linesearch": True}))
+        out.append(("nn-[0]-linesearch-svd", {"init": "svd", "nn_modes": [0], "linesearch": True}))
         out.append(("nn-[0, 2]-linesearch-svd", {"init": "svd", "nn_modes": [0, 2], "linesearch": True}))
         out.append(("nn-[0]-normalize", {"init": "random", "nn_modes": [0], "linesearch": False, "normalize_factors": True}))
     return out
 
 
-ALGOS = ["non_negative_parafac", "non_negative_parafac_hals", "non_negative_tucker", "non_negative_tucker_hals", "constrained_parafac", "parafac2"]
+ALGOS = ["non_negative_parafac", "non_negative_parafac_hals", "non_negative_tucker", "non_negative_tucker_hals", "constrained_parafac", "parafac2",
+         "parafac2-linesearch-seam"]
 FAMILIES = ["generic", "nonneg", "sparse-nonneg", "integer", "all-negative"]
 
 
 def shapes_for(algo, tier):
     q = tier == "quick"
+    if algo == "parafac2-linesearch-seam":
+        return [(3, 4, 2), (4, 5, 3)] if q else [(3, 4, 2), (4, 5, 3), (6, 8, 6)]
     if algo == "parafac2":
         return [(3, 4, 2)] if q else [(3, 4, 2), (2, 3, 3), (4, 2, 3)]
     if algo == "constrained_parafac":
@@ -84,7 +93,7 @@ def ranks_for(algo, shape, tier):
 
 def K_for(algo, variant, tier):
     if "linesearch" in variant:
-        return 8 if tier == "quick" else 11
+        return 11 if tier == "quick" else 15
     if algo in ("non_negative_parafac_hals", "non_negative_tucker_hals"):
         return 2 if tier == "quick" else 4
     return 3 if tier == "quick" else 6
@@ -127,12 +136,65 @@ class C10(Check):
         algo = group["algo"]
         var = [v for v in variants(algo, tier) if v[0] == group["variant"]][0]
         heavy = "exact" in var[0]  # exact inner solves run tens of thousands of inner sweeps: smallest scope only
+        if algo == "parafac2" and "linesearch" in var[0] and group["family"] == "generic":
+            # larger noisy PARAFAC2 data with a mixed-sign A: extrapolated line-search steps overshoot below zero here
+            for off in ((0, 4) if tier == "quick" else (0, 4, 10, 12, 29)):
+                for nip in (1, 5):
+                    yield {"algo": algo, "variant": var[0], "cfg": dict(var[1], n_iter_parafac=nip), "family": f"parafac2-model:{off}",
+                           "shape": [6, 8, 6], "rank": 3, "K": 15, "seed": seed}
         for shape in (shapes_for(algo, tier)[1:2] if heavy else shapes_for(algo, tier)):
             for rank in (ranks_for(algo, shape, tier)[:1 if tier == "quick" else 2] if heavy else ranks_for(algo, shape, tier)):
                 yield {"algo": algo, "variant": var[0], "cfg": var[1], "family": group["family"], "shape": list(shape), "rank": rank,
                        "K": 1 if heavy else K_for(algo, var[0], tier), "seed": seed, "heavy": heavy}
 
+    def run_seam(self, case, ctx):
+        """One accepted line-search step with factors that move towards negative values: the step that is kept must be
+        non-negative on the declared modes (0 and 2; mode 1 cannot be constrained)."""
+        import tensorly as tl
+        from vmc import values as V
+
+        try:
+            from tensorly.decomposition._parafac2 import _BroThesisLineSearch as LS
+        except Exception:
+            ctx.count("guarded_out:internal-seam-unavailable")
+            return
+        I, J, K = case["shape"]
+        R, seed = case["rank"], case["seed"]
+        nn = list(case["cfg"]["nn_modes"])
+        X = itm.parafac2_model_tensor(I, J, K, R, seed + 3)
+        A = V.generic((I, R), seed + 1, signed=False)
+        B = V.generic((R, R), seed + 2) + np.eye(R)
+        C = V.generic((K, R), seed + 3, signed=False)
+        last = [A, B, C]
+        cur = [A - 0.5 * V.generic((I, R), seed + 5, signed=False), B, C - 0.5 * V.generic((K, R), seed + 6, signed=False)]
+        cur = [np.clip(f, 0, None) if k in (0, 2) else f for k, f in enumerate(cur)]  # the ALS iterate itself is feasible
+        projs = [np.linalg.qr(V.generic((J, R), seed + 20 + i))[0] for i in range(I)]
+        ctx.states += 1
+        for it in (6, 10, 20):
+            try:
+                ls = LS(float(np.linalg.norm(X)), "truncated_svd", nn_modes=nn)
+                f2, p2, err = ls.line_step(it, [tl.tensor(x) for x in X], [tl.tensor(f) for f in last], tl.ones(R), [tl.tensor(f) for f in cur],
+                                           [tl.tensor(p) for p in projs], float("inf"))
+            except Exception as e:
+                ctx.count(f"guarded_out:internal-seam-raises:{type(e).__name__}")
+                return
+            ctx.transitions += 1
+            ctx.traces += 1
+            ctx.nontriv([case, it])
+            accepted = not all(np.array_equal(np.asarray(a), b) for a, b in zip(f2, cur))
+            ctx.outcome(f"parafac2-linesearch-seam:{'accepted' if accepted else 'rejected'}")
+            for m in nn:
+                if m == 1:
+                    continue
+                a = np.asarray(f2[m])
+                if not np.all(np.isfinite(a)) or a.min() < 0:
+                    ctx.violation(f"parafac2-linesearch-seam/negative-factor-{'A' if m == 0 else 'C'}/accepted-step",
+                                  f"{case}: line_step(iteration={it}) with nn_modes={nn} keeps a step whose mode-{m} factor has min {a.min()}")
+                    return
+
     def run_case(self, case, ctx):
+        if case["algo"] == "parafac2-linesearch-seam":
+            return self.run_seam(case, ctx)
         algo, shape, rank, seed = case["algo"], tuple(case["shape"]), case["rank"], case["seed"]
         ndim = len(shape)
         X = itm.data_tensor(case["family"], shape, rank if isinstance(rank, int) else 2, seed)
